@@ -72,10 +72,11 @@ Definition one_pass (me : method) (o : oracles) (st : pstate) (s : pgs) (l : pil
       | _, _, _ => (groups s, infos)
       end in
     let es := mk_entries gs is (map (o_score o) is) in
-    (* the seen set is reset inside do_competition before the final unpacking can fail *)
+    (* the seen set is reset inside do_competition, before the loop (whatever an earlier, aborted competition left behind) and
+       again behind it, before the final unpacking can fail *)
     let st2 := {| ps_seen := []; ps_counts := ps_counts st1; ps_pep_cutoff := ps_pep_cutoff st1;
                   ps_rescue_cutoff := ps_rescue_cutoff st1; ps_obsolete := ps_obsolete st1 |} in
-    match do_competition (m_picked me) (ps_seen st) es pi1 pi2 with
+    match do_competition (m_picked me) [] es pi1 pi2 with
     | Raise e => (st2, Raise e)
     | Ok ranked =>
       match calculate_protein_fdrs (map (fun e => (e_group e, e_score e)) ranked) with
